@@ -5,14 +5,23 @@ KittyImage / ITerm2Image (every method, style argument, alpha setting, terminal 
 lexed fail-closed into the tokens of lib/Term.v, compared inside Coq with the token models
 (model/Block.v, model/GfxRender.v) and run through the executable render contract
 [rect_checkb] at two start positions (the property oracle on the implementation's own
-output)."""
+output).
+
+Sessions (round 4): "the render output of an image" is every output an instance hands out, so the
+correspondence also drives SESSIONS -- several render requests on ONE instance (str / format /
+_renderer, settings varied between them) where some requests are interrupted by an asynchronous
+KeyboardInterrupt at the k-th line event inside term_image code (harness/impl/asyncfault.py) or by
+an ordinary exception raised by a call the render makes.  Every completed output of a session is
+judged exactly like a single render, inside Coq, against the session model
+(model/RenderSession.v, model/RenderSessionTie.v: scheck)."""
 from __future__ import annotations
 
 import core
 import renderlib as R
+from props import c01_sessions as S
 
 LEVEL = "proof"
-EXTRA_TARGETS = ["model/RenderTie.vo"]
+EXTRA_TARGETS = ["model/RenderTie.vo", "model/RenderSessionTie.vo"]
 
 TERMS = {"iterm2": ["konsole", "wezterm", "iterm2", ""], "kitty": [""], "block": [""]}
 
@@ -120,12 +129,21 @@ def nontrivial(c):
 
 def run(ctx):
     rng = ctx.rng
+    sessions = []
     if ctx.replay:
         cases = [ctx.replay["replay"]["case"]]
+        if "session" in cases[0]:
+            cases, sessions = [], cases
     else:
         n = 260 if ctx.quick else 5000
         cases = corpus() + [gen_case(rng) for _ in range(n)]
-    codes, lexerr, impl, errors = R.evaluate(cases, "c01")
+        # sessions use their own stream (derived from the seed) so that the single-render cases of a
+        # seed stay what they were
+        srng = __import__("random").Random(rng.getrandbits(64))
+        sessions = S.corpus() + [S.gen_session(srng) for _ in range(110 if ctx.quick else 1500)]
+        if not ctx.quick:
+            sessions += S.every_position(S.small_scenarios())
+    codes, lexerr, impl, errors = R.evaluate(cases, "c01") if cases else ([], [], [], [])
     mismatches, failures = [], []
     hist = {"style": {}, "method": {}, "term": {}, "cells": {}, "alpha": {}}
     distinct = set()
@@ -154,17 +172,68 @@ def run(ctx):
         elif codes[i] & 1:
             mismatches.append({"case": c, "code": codes[i],
                                "explain": R.explain(c, impl[i], "c01") if len(mismatches) < 3 else ""})
+    # ---- sessions: every completed render output of every session is judged like a single render
+    shist = {"sessions": len(sessions), "requests": 0, "completed": 0, "interrupted_async": 0, "interrupted_raise": 0,
+             "fault_not_reached": 0, "interrupted_in": {}, "via": {}, "length": {}}
+    if sessions:
+        verdicts, simpl, serrors = S.judge(sessions, "c01s")
+        errors = errors + serrors
+        for c, v, r in zip(sessions, verdicts, simpl):
+            shist["length"][len(c["session"])] = shist["length"].get(len(c["session"]), 0) + 1
+            seen_cut = False
+            for st, sr in zip(c["session"], r.get("session", [])):
+                shist["requests"] += 1
+                shist["via"][st.get("via")] = shist["via"].get(st.get("via"), 0) + 1
+                if "interrupted" in sr:
+                    seen_cut = True
+                    kind = "interrupted_async" if "async" in st.get("fault", {}) else "interrupted_raise"
+                    shist[kind] += 1
+                    where = (sr.get("where") or ["-", 0, st.get("fault", {}).get("raise", {}).get("target", "-")])
+                    key = f"{where[0]}:{where[2]}"
+                    shist["interrupted_in"][key] = shist["interrupted_in"].get(key, 0) + 1
+                elif "out" in sr:
+                    shist["completed"] += 1
+                    if "fault" in st:
+                        shist["fault_not_reached"] += 1
+                    elif seen_cut:
+                        distinct.add(core.sig(["session", c]))
+            if S.failing(v):
+                if len(failures) < 3:
+                    c2, v2, r2 = S.shrink(c, v, r, "c01s")
+                    why = v2["lexerr"] or ("render violates the rectangle contract (clauses [inside, covered, final cursor, sgr, "
+                                           "protocol, modes, #LF, no trailing LF, LF discipline] / first model difference: "
+                                           + S.explain(c2, v2, r2, "c01s") + ")")
+                else:
+                    c2, v2, r2, why = S.concrete(c, r), v, r, v["lexerr"] or "render violates the rectangle contract"
+                j = v2["step"] if v2["step"] is not None else 0
+                outs = [sr.get("out", "")[:1500] if "out" in sr else {k: sr[k] for k in sr if k != "toks"}
+                        for sr in r2.get("session", [])]
+                failures.append({"signature": core.sig(["session", c2]),
+                                 "what": f"request {j + 1} of a session on one image instance: {why} — {S.describe(c2, r2)}",
+                                 "replay": {"case": c2, "offending_request": j + 1, "session_results": outs}})
+            elif v["code"] & 1:
+                mismatches.append({"case": S.concrete(c, r), "code": v["code"], "step": v["step"],
+                                   "explain": S.explain(c, v, r, "c01s") if len(mismatches) < 3 else ""})
+    hist["sessions"] = shist
     return {
         "corr_name": "Block.render / GfxRender.{kitty,iterm2}_{lines,whole} (token models) == lexed real renders",
-        "evaluations": len(cases),
+        "evaluations": len(cases) + shist["completed"],
         "distinct_nontrivial": len(distinct),
         "rule": "corpus (3 styles x 4 sizes x methods x terminal identities x mix) + random cases: image mode/size/content, "
                 "cells 1..12 x 1..8 (boundary-seeded w=1, h=1), cell sizes 1..20 x 1..40, method (case variants), mix, "
                 "compress 0-9, z-index incl. extremes, blend, alpha {None, thresholds, '#', hex}, terminal identity "
                 "{konsole, wezterm, iterm2, other}; each render is lexed, compared with the token model and checked by "
                 "rect_checkb at start positions (0,0) and (row 3, left margin 5). Non-trivial: >= 2 columns and >= 2 lines; "
-                "distinct by case hash.",
-        "samples": [R.describe(c) for c in cases[:1] + cases[-3:]],
+                "distinct by case hash.  SESSIONS: corpus (style x method: [render, interrupted at 30/60/90 %, render], "
+                "[interrupted first render, render at another size], [exception out of the n-th buffer write, render, str]) + "
+                "random sessions of 2..5 requests on one instance (size / alpha / method / style args / route str, format, "
+                "_renderer varied per request; ~65 % of the non-final requests interrupted: asynchronous KeyboardInterrupt at a "
+                "uniformly drawn line event inside term_image code, or MemoryError/OSError/ValueError/KeyboardInterrupt out of "
+                "the n-th call of StringIO.write, BytesIO.write/read, zlib compress, b64encode, PIL resize/convert/getdata/"
+                "tobytes/save/crop, get_fg_bg_colors); thorough: additionally EVERY line event of 13 small scenarios. Every "
+                "completed output is judged like a single render (scheck); a session is non-trivial when a completed request "
+                "follows an interrupted one.",
+        "samples": [R.describe(c) for c in cases[:1] + cases[-3:]] + [S.describe(c) for c in sessions[-2:]],
         "histogram": hist,
         "mismatches": mismatches,
         "failures": failures,
@@ -174,6 +243,8 @@ def run(ctx):
             "CUx 0 = 1, kitty C=1/c/r placement, iterm2 cursor after image, doNotMoveCursor)",
             "the render string is drawn with the cursor at the left margin (lm generalises column 0) and default attributes",
             "payload bytes are abstracted to lengths (their content is C03's business)",
+            "sessions: interruptions are delivered on line-event boundaries of term_image code (sys.settrace) or as an exception "
+            "out of a call the render makes; a request whose injected fault was swallowed by the library counts as completed",
         ],
         "trusted": ["harness/lexer.py (bytes -> tokens, fail-closed)"],
     }
